@@ -811,6 +811,10 @@ class Engine:
             return self.new_list(ListModel([self.lift_runtime(x, tag) for x in val], tag=tag))
         if isinstance(val, dict) and all(isinstance(k, str) for k in val):
             return self.new_dict(DictModel({k: (z3.BoolVal(True), self.lift_runtime(v, tag)) for k, v in val.items()}, False, None, tag))
+        if isinstance(val, type) and issubclass(val, BaseException):
+            # an exception class held in a module constant (e.g. a tuple used in an except clause)
+            mod = getattr(val, "__module__", "")
+            return VClass(val.__name__ if mod == "builtins" else "%s.%s" % (mod.split(".")[-1], val.__qualname__))
         if hasattr(val, "pattern") and hasattr(val, "groupindex"):
             return VOpaque("regex:" + tag)
         if isinstance(val, type) and issubclass(val, tuple) and hasattr(val, "_fields"):
